@@ -1,56 +1,57 @@
 (** C01 — Every signature the library produces verifies (all sets, all modes), with the advertised length.
-    Only property theorems here, closed by [exact] of lemmas proved elsewhere. The full statement
-        keypair seed = (pk, sk) -> signature sk M' = sig -> verify sig M' pk = true /\ |sig| = SIGNBYTES
-    needs the ring identity A z - c t1 2^d = (w - c s2) + c t0 through the NTT-domain computation and is NOT yet a
-    Coq theorem; termination of signing is not provable by any technique (rejection sampling on hash output).
-    PROVED, and exactly the ingredients the argument consists of (each for all inputs):
-      (1) the hint rule: for every high part w1 and every low-part sum |a0| < 2*gamma2 the signer's hint makes the
-          verifier's UseHint on the perturbed value return w1 (C15);
-      (2) whatever the signer emits passed its four tests, so the emitted z satisfies the verifier's norm gate, the
-          hint vector has weight <= omega (C06);
-      (3) the hint section written by the signer is decoded by the verifier's strict decoder to the same hint vector,
-          and z decodes to the same z (C16);
-      (4) signer and verifier frame the message identically (C07) and compare the whole challenge (C03).
-    The remaining link is decided by execution: the crate verifies ~10^5 of its own signatures per run (all sets, modes,
-    reused buffers), an independent verifier accepts them, and the model replays sign/verify chains (see evidence). *)
-From DV Require Import Base MReduce MRounding MParams MPoly MPolyvec MPacking MSign MApi PRounding PPack2 PHint PSignStruct PFrame.
+    Only property theorems here, closed by [exact] of lemmas proved in PSignVerify.v (which composes PKeygen, PSignStruct,
+    PSignTotal, PVerifySpec, PRing, PRounding, PHint, PPack2, PKeyCodec, PBridge, PKeccak).
+    PROVED for the six parameter sets, every 32-byte seed (or 32 drawn bytes), every message, every context of at most 255
+    bytes, both pre-hash functions, deterministic and hedged/randomized mode: whenever signing returns a signature, that
+    signature has exactly the advertised length and verification under the matching public key, message, context and mode
+    returns true. The argument: in the NTT domain A z - c t1 2^d = (w - c s2) + c t0 = w1*alpha + a0 with |a0| < 2*gamma2 - beta
+    for the accepted attempt, the hint rule (C15) gives UseHint = w1, the codecs round-trip (C16), both sides hash the same
+    mu and frame the same M' (C07).
+    NOT provable by any technique: that signing always terminates (rejection sampling on hash output) — it is the
+    hypothesis [signature .. = Ok ..]; the check runs the crate under a watchdog and ~10^5 sign/verify round trips per run. *)
+From DV Require Import Base MParams MSign MApi PTape PSignTotal PKeygen PSignVerify.
 
-Theorem C01_hint_rule_partial : forall g88 w1 a0, 0 <= w1 < MM g88 -> - ALPHA g88 < a0 < ALPHA g88 ->
-  exists hb, make_hint g88 a0 w1 = Ok hb /\ (hb = 0 \/ hb = 1) /\
-             use_hint g88 ((w1 * ALPHA g88 + a0) mod Q) hb = Ok w1.
-Proof. exact hint_roundtrip. Qed.
-Print Assumptions C01_hint_rule_partial.
+Theorem C01_sign_then_verify :
+  forall (P : params) (xi pk0 sk0 tp pk sk tp' sig0 m : list Z) (rand : bool) (tape sig tape' : list Z),
+  std P -> Forall is_byte xi -> zlen xi = 32 -> Forall is_byte m ->
+  zlen pk0 = pPK P -> zlen sk0 = pSK P -> zlen sig0 = pSIG P -> tape_ok P rand tape ->
+  keypair P pk0 sk0 (Some xi) tp = Ok (pk, sk, tp') ->
+  signature P sig0 m sk rand tape = Ok (sig, tape') ->
+  zlen sig = pSIG P /\ verify P sig m pk = Ok true.
+Proof. exact sign_then_verify. Qed.
+Print Assumptions C01_sign_then_verify.
 
-Theorem C01_emitted_response_passes_the_verifiers_gate_partial :
-  forall (P : params) (fuel : nat) (sig msg sk : list Z) (rand : bool) (tape s trace tape' : list Z),
-  signature_trace P fuel sig msg sk rand tape = Ok (s, trace, tape') ->
-  exists (sigc : list Z) (z h : list (list Z)),
-    pack_sig P sigc None z h = Ok s /\ length z = Z.to_nat (pL P) /\ length h = Z.to_nat (pK P) /\
-    (forall a, In a z -> forall x, In x a -> Z.abs x < pGAMMA1 P - pBETA P) /\
-    hint_bits h /\ 0 <= hint_weight h <= pOMEGA P.
-Proof. exact signature_respects_bounds. Qed.
-Print Assumptions C01_emitted_response_passes_the_verifiers_gate_partial.
+Theorem C01_sign_then_verify_unseeded_key :
+  forall (P : params) (pk0 sk0 tp pk sk tp' sig0 m : list Z) (rand : bool) (tape sig tape' : list Z),
+  std P -> Forall is_byte (firstn 32 tp) -> Forall is_byte m ->
+  zlen pk0 = pPK P -> zlen sk0 = pSK P -> zlen sig0 = pSIG P -> tape_ok P rand tape ->
+  keypair P pk0 sk0 None tp = Ok (pk, sk, tp') ->
+  signature P sig0 m sk rand tape = Ok (sig, tape') ->
+  zlen sig = pSIG P /\ verify P sig m pk = Ok true.
+Proof. exact sign_then_verify_unseeded. Qed.
+Print Assumptions C01_sign_then_verify_unseeded_key.
 
-Theorem C01_hints_survive_the_codec_partial : forall (P : params) (h : list (list Z)), 0 <= pOMEGA P <= 255 ->
-  hint_wf (pK P) h -> hweight h <= pOMEGA P ->
-  hint_decode P (S_hint_pack (pOMEGA P) h) (zero_h (pK P)) = Ok (h, true).
-Proof. exact hint_decode_pack. Qed.
-Print Assumptions C01_hints_survive_the_codec_partial.
+(** through the API, for any key pair the specification's KeyGen defines (C04: that is what key generation returns) *)
+Theorem C01_dilithium_api : forall (P : params) (xi pk sk msg s : list Z),
+  std P -> S_keygen P xi pk sk -> zlen pk = pPK P -> zlen sk = pSK P -> Forall is_byte msg ->
+  dil_sign P sk msg = Ok s -> zlen s = pSIG P /\ dil_verify P pk msg s = Ok true.
+Proof. exact dil_sign_then_verify. Qed.
+Print Assumptions C01_dilithium_api.
 
-Theorem C01_response_survives_the_codec_partial : forall a b : list Z, length a = 256%nat ->
-  (Forall z17_rng a -> z_pack_bytes G17 a = Ok b -> z_unpack G17 b = Ok a) /\
-  (Forall z19_rng a -> z_pack_bytes G19 a = Ok b -> z_unpack G19 b = Ok a).
-Proof. intros a b Hl; split; intros H E; [apply (z17_unpack_pack a b H Hl E) | apply (z19_unpack_pack a b H Hl E)]. Qed.
-Print Assumptions C01_response_survives_the_codec_partial.
+Theorem C01_mldsa_api :
+  forall (P : params) (xi pk sk msg : list Z) (ctx : option (list Z)) (hedged : bool) (tape s tape' : list Z),
+  std P -> S_keygen P xi pk sk -> zlen pk = pPK P -> zlen sk = pSK P -> Forall is_byte msg ->
+  PTotal.ctx_is_bytes ctx -> tape_ok P hedged tape ->
+  ml_sign P sk msg ctx hedged tape = Ok (Some s, tape') ->
+  zlen s = pSIG P /\ ml_verify P pk msg s ctx = Ok true.
+Proof. exact ml_sign_then_verify. Qed.
+Print Assumptions C01_mldsa_api.
 
-Theorem C01_same_framing_on_both_sides_partial :
-  forall (P : params) (sk pk msg sig : list Z) (ctx : option (list Z)) (hedged : bool) (tape : list Z),
-  let framed := frame_pure ctx msg in
-  ml_sign P sk msg ctx hedged tape =
-    (if ctx_too_long ctx then Ok (None, tape)
-     else do '(s, tape') <- signature P (repeatZ 0 (pSIG P)) framed sk hedged tape; Ok (Some s, tape')) /\
-  ml_verify P pk msg sig ctx =
-    (if ctx_too_long ctx then Ok false
-     else if negb (zlen sig =? pSIG P) then Ok false else verify P sig framed pk).
-Proof. exact sign_verify_same_frame. Qed.
-Print Assumptions C01_same_framing_on_both_sides_partial.
+Theorem C01_mldsa_prehash_api :
+  forall (P : params) (xi pk sk msg : list Z) (ctx : option (list Z)) (hedged ph : bool) (tape s tape' : list Z),
+  std P -> S_keygen P xi pk sk -> zlen pk = pPK P -> zlen sk = pSK P ->
+  PTotal.ctx_is_bytes ctx -> tape_ok P hedged tape ->
+  ml_prehash_sign P sk msg ctx hedged ph tape = Ok (Some s, tape') ->
+  zlen s = pSIG P /\ ml_prehash_verify P pk msg s ctx ph = Ok true.
+Proof. exact ml_prehash_sign_then_verify. Qed.
+Print Assumptions C01_mldsa_prehash_api.
